@@ -34,6 +34,7 @@ type c16World struct {
 	failed      bool
 	lastResult  c16Result
 	lastRowTag  int64
+	beginOpts   []driver.TxOptions
 }
 
 func (w *c16World) rec(op, query string, args []driver.NamedValue) {
@@ -102,6 +103,7 @@ func (c *c16Conn) Begin() (driver.Tx, error) {
 	return &c16Tx{c.w}, nil
 }
 func (c *c16Conn) BeginTx(ctx context.Context, opts driver.TxOptions) (driver.Tx, error) {
+	c.w.beginOpts = append(c.w.beginOpts, opts)
 	return c.Begin()
 }
 func (c *c16Conn) ExecContext(ctx context.Context, q string, args []driver.NamedValue) (driver.Result, error) {
@@ -307,6 +309,8 @@ func VerifC16Tx() {
 	args := []driver.NamedValue{{Ordinal: 1, Value: vrt.Int64("arg1")}, {Ordinal: 2, Value: vrt.Int64("arg2")}}
 	ctx := context.Background()
 	commit := vrt.Bool("commit")
+	// the isolation level and read-only flag the application asked for
+	opts := driver.TxOptions{Isolation: driver.IsolationLevel(vrt.Uint8("tx.isolation") % 8), ReadOnly: vrt.Bool("tx.readonly")}
 	vrt.Reach("tx/" + name)
 	var err error
 	panicked := false
@@ -319,7 +323,7 @@ func VerifC16Tx() {
 		}()
 		want = []string{"Begin"}
 		var tx driver.Tx
-		tx, err = beginner.BeginTx(ctx, driver.TxOptions{})
+		tx, err = beginner.BeginTx(ctx, opts)
 		if err != nil {
 			return
 		}
@@ -339,6 +343,7 @@ func VerifC16Tx() {
 		return
 	}
 	vrt.Assert(w.coordinator == 0, "tx/no-coordinator-traffic")
+	vrt.Assert(len(w.beginOpts) == 1 && w.beginOpts[0] == opts, "tx/begin-options-reach-the-driver")
 	vrt.Assert(len(w.journal) == len(want), "tx/same-number-of-driver-calls")
 	for i := 0; i < len(want) && i < len(w.journal); i++ {
 		vrt.Assert(w.journal[i].op == want[i], "tx/same-driver-calls")
